@@ -126,7 +126,8 @@ def diff_streams(rep, prop, cfg, tier, seed, binary, workdir, kf):
 
 
 def shortest(fails):
-    return min(fails, key=lambda r: len(r['op']))
+    # (an operation the harness could not even run to the end tells less than one with an answer)
+    return min(fails, key=lambda r: ('harness-crashed' in r.get('impl', ''), len(r['op'])))
 
 
 def run_diff_property(prop, cfg, tier, seed, replay=None):
